@@ -29,6 +29,9 @@ ValueFails(r, wv) ==
          \cup (IF ~r.re_ok THEN {<<"C01_reencode", "decoded object cannot be encoded: " \o r.err>>}
                ELSE IF r.bytes2 = r.bytes THEN {} ELSE {<<"C01_reencode", "re-encoded bytes differ">>})
          \cup (IF r.eq = "unequal" THEN {<<"C01_eq", "the library's own == says decoded # original">>} ELSE {})
+         \* encoding is a function of (value, version): after the same object has been encoded under the other versions
+         \* that define its class, encoding it again under this version gives the same bytes (pure = "same" | "differs" | "na")
+         \cup (IF r.pure = "differs" THEN {<<"C01_encoding_changes_the_value", r.puredetail>>} ELSE {})
 
 AcceptFails(r) ==
     IF ~r.e1_ok THEN {<<"C01_accepted_unencodable", r.err>>}
